@@ -5,6 +5,9 @@
 The arms of each per-node `match` are cut verbatim into a step function (vf.step); for `at_age`, `at_lock_time`
 and `sorted` the second per-node `match new_policy { Some(..) => push(Arc::new(..)), None => push(Arc::clone(node)) }`
 is extracted as a second step, so that "leaf unchanged" is a statement about what is pushed, not about an `Option`.
+The same loop written with the two matches folded (`let x = match .. { .. => Arc::new(..), _ => Arc::clone(data.node) }; stack.push(x);`)
+is recognised too (class LoopBody): the arms then yield the `Arc` that is pushed, the clauses speak about `*r` instead of
+`r->Some_0` / `r is None`, and the rest of the loop body (the push) is the second step, verbatim.
 
 Oracle (all written here, none read off the code)
 * `sem(p, a)`: truth-table meaning of an abstract policy under an assignment `a` = (set of keys that sign, sets of
@@ -30,7 +33,10 @@ or(TRIVIAL,..) -> TRIVIAL, and(UNSATISFIABLE,..) -> UNSATISFIABLE) under the Thr
 The truth table ranges over ALL assignments of the atoms (older / after atoms are independent variables); the
 assignments possible at a given nSequence / nLockTime are the predicates at_sequence / at_nlocktime.
 """
-from vlib.verus import VerusFile, Contract, Clause, sub, lit
+import re
+
+from vlib.verus import VerusFile, Contract, Clause, Undecided, sub, lit
+from vlib.extract import match_close
 from units import _tree
 
 NAME = "c18_semantic"
@@ -435,41 +441,89 @@ REF_ITEM = "data: PostOrderIterItem<&Semantic<Pk>>"
 STACK = "Vec<Arc<Semantic<Pk>>>"
 
 
+class LoopBody:
+    """The body of `for data in ..rtl_post_order_iter() { let NAME = match data.node.as_ref() { ARMS }; REST }`, read off the text.
+
+    Two spellings of the same loop are understood (the local's NAME is read off the text):
+      option : ARMS yield `Option<Self>` (`None` = node unchanged) and REST is `match NAME { Some(p) => push(Arc::new(p)), None => push(Arc::clone(data.node)) }`
+      arc    : ARMS yield the `Arc<Self>` to push (`Arc::new(..)` / `Arc::clone(data.node)`) and REST pushes NAME
+    In both the ARMS are one step and REST (verbatim) is a second step that receives NAME; a wrong guess of the type of NAME is a rustc error (UNDECIDED)."""
+
+    def __init__(self, vf, impl_no, fn):
+        self.fn_anchor = "impl:Policy<Pk>#%d/fn:%s" % (impl_no, fn)
+        reg = vf.repo.at(SEM, self.fn_anchor)
+        text = reg.text
+        m = re.search(r"\blet\s+(\w+)\s*=\s*match\s+data\s*\.node\s*\.as_ref\(\)\s*\{", text)
+        loops = list(re.finditer(r"\bfor\s+data\s+in\b[^{;]*\{", text[:m.start()])) if m else []
+        if not m or not loops:
+            raise Undecided("%s: `for data in .. { let NAME = match data.node.as_ref() {..}; .. }` not found (shape not modelled)" % self.fn_anchor)
+        self.name = m.group(1)
+        loop_close = match_close(text, loops[-1].end() - 1)
+        semi = re.match(r"\s*;", text[match_close(text, m.end() - 1) + 1:])
+        if not semi:
+            raise Undecided("%s: `let %s = match ..` is not a statement of its own" % (self.fn_anchor, self.name))
+        rest_start = match_close(text, m.end() - 1) + 1 + semi.end()
+        self.rest = text[rest_start:loop_close].strip()
+        self.rest_lines = (reg.line_of(reg.start + rest_start), reg.line_of(reg.start + loop_close))
+        self.option = re.match(r"match\s+%s\s*\{" % re.escape(self.name), self.rest) is not None
+        self.match_anchor = self.fn_anchor + "/match:data.node.as_ref()"
+        # how the clauses speak about the policy the node step hands on
+        self.ret = "Option<Self>" if self.option else "Arc<Self>"
+
+
 def filter_step(vf, fn, stack, variant, lock_arg, lock_ty, lock_spec, field):
     """at_age / at_lock_time: node step + push step."""
-    vf.step(SEM, "impl:Policy<Pk>#2/fn:%s/match:data.node.as_ref()" % fn, "Semantic::%s_step" % fn,
-            "fn %s_step(%s, %s: &mut %s, %s: %s::LockTime) -> Option<Self>" % (fn, ARC_ITEM, stack, STACK, lock_arg, lock_ty),
+    L = LoopBody(vf, 2, fn)
+    # `built`: the policy the step hands on for a lock node; `unchanged`: "this node is handed on as it is"
+    built, is_built, unchanged = ("r->Some_0", "r is Some && ", "r is None") if L.option else ("*r", "", "*r == %s" % NODE)
+    kept = "(if %s(t.consensus()).implied_by(%s) { %%s(Semantic::<Pk>::%s(t)) } else { %%s(Semantic::<Pk>::Unsatisfiable) })" % (lock_spec, lock_arg, variant)
+    vf.step(SEM, L.match_anchor, "Semantic::%s_step" % fn,
+            "fn %s_step(%s, %s: &mut %s, %s: %s::LockTime) -> %s" % (fn, ARC_ITEM, stack, STACK, lock_arg, lock_ty, L.ret),
             props=PROPS, scrutinee=AS_REF,
             exclude={"Self::Thresh(ref thresh)": "thresh_arm_excluded(thresh, %s)" % stack},
             contract=Contract(ensures=[
                 # the BIP's rule, at the leaf
                 Clause("%s_kept_iff_implied" % variant.lower(), ("C18",),
-                       "%s matches Semantic::%s(t) ==> r == (if %s(t.consensus()).implied_by(%s) { Some(Semantic::<Pk>::%s(t)) } else { Some(Semantic::<Pk>::Unsatisfiable) })"
-                       % (NODE, variant, lock_spec, lock_arg, variant)),
+                       "%s matches Semantic::%s(t) ==> %s == %s" % (NODE, variant, "r" if L.option else "*r", kept % (("Some", "Some") if L.option else ("", "")))),
                 # truth table restricted to the assignments whose sequence / lock time is the given one
                 Clause("%s_restricted_exactly" % variant.lower(), ("C18",),
-                       "%s is %s ==> r is Some && (forall|a: Asg<Pk>| %s(a, %s) ==> sem(r->Some_0, a) == sem(%s, a))" % (NODE, variant, field, lock_arg, NODE)),
+                       "%s is %s ==> %s(forall|a: Asg<Pk>| %s(a, %s) ==> sem(%s, a) == sem(%s, a))" % (NODE, variant, is_built, field, lock_arg, built, NODE)),
                 # ... and nothing that is kept still depends on it: what is kept holds under every such assignment
                 Clause("%s_kept_only_if_it_holds" % variant.lower(), ("C18",),
-                       "%s is %s ==> r is Some && (r->Some_0 is Unsatisfiable || (forall|a: Asg<Pk>| %s(a, %s) ==> sem(r->Some_0, a)))" % (NODE, variant, field, lock_arg)),
-                Clause("other_leaves_unchanged", ("C18",), "is_leaf(%s) && !(%s is %s) ==> r is None" % (NODE, NODE, variant)),
+                       "%s is %s ==> %s(%s is Unsatisfiable || (forall|a: Asg<Pk>| %s(a, %s) ==> sem(%s, a)))" % (NODE, variant, is_built, built, field, lock_arg, built)),
+                Clause("other_leaves_unchanged", ("C18",), "is_leaf(%s) && !(%s is %s) ==> %s" % (NODE, NODE, variant, unchanged)),
                 Clause("leaf_stack_frame", ("C18", "C11"), "is_leaf(%s) ==> final(%s)@ == old(%s)@" % (NODE, stack, stack)),
             ]))
-    push_step(vf, fn, stack, 2)
+    push_step(vf, fn, stack, L)
 
 
-def push_step(vf, fn, stack, impl_no):
-    """`match new_policy { Some(p) => stack.push(Arc::new(p)), None => stack.push(Arc::clone(data.node)) }`"""
-    vf.step(SEM, "impl:Policy<Pk>#%d/fn:%s/match:new_policy" % (impl_no, fn), "Semantic::%s_push_step" % fn,
-            "fn %s_push_step(%s, %s: &mut %s, new_policy: Option<Self>)" % (fn, ARC_ITEM, stack, STACK),
-            props=PROPS,
-            contract=Contract(ensures=[
-                Clause("pushes_exactly_one", ("C18", "C11"), "final(%s)@.len() == old(%s)@.len() + 1 && final(%s)@.drop_last() == old(%s)@" % ((stack,) * 4)),
-                Clause("none_means_node_unchanged", ("C18",), "new_policy is None ==> *final(%s)@.last() == %s" % (stack, NODE)),
-                Clause("some_is_pushed", ("C18",), "new_policy is Some ==> *final(%s)@.last() == new_policy->Some_0" % stack),
-                Clause("meaning_pushed", ("C18",),
-                       "forall|a: Asg<Pk>| sem(*final(%s)@.last(), a) == sem(match new_policy { Some(p) => p, None => %s }, a)" % (stack, NODE)),
-            ]))
+def push_step(vf, fn, stack, L):
+    """REST of the loop body: `match NAME { Some(p) => stack.push(Arc::new(p)), None => stack.push(Arc::clone(data.node)) }`, or `stack.push(NAME);`
+    when the arms already build the Arc"""
+    nm = L.name
+    one = Clause("pushes_exactly_one", ("C18", "C11"), "final(%s)@.len() == old(%s)@.len() + 1 && final(%s)@.drop_last() == old(%s)@" % ((stack,) * 4))
+    if L.option:
+        vf.step(SEM, L.fn_anchor + "/match:" + nm, "Semantic::%s_push_step" % fn,
+                "fn %s_push_step(%s, %s: &mut %s, %s: Option<Self>)" % (fn, ARC_ITEM, stack, STACK, nm),
+                props=PROPS,
+                contract=Contract(ensures=[
+                    one,
+                    Clause("none_means_node_unchanged", ("C18",), "%s is None ==> *final(%s)@.last() == %s" % (nm, stack, NODE)),
+                    Clause("some_is_pushed", ("C18",), "%s is Some ==> *final(%s)@.last() == %s->Some_0" % (nm, stack, nm)),
+                    Clause("meaning_pushed", ("C18",),
+                           "forall|a: Asg<Pk>| sem(*final(%s)@.last(), a) == sem(match %s { Some(p) => p, None => %s }, a)" % (stack, nm, NODE)),
+                ]))
+        return
+    # the arms hand on the Arc itself (the unchanged node is `Arc::clone(data.node)`, claimed by the node step): REST verbatim
+    vf.rewrites_used.append("R16-loop-body-rest `%s` as a step receiving `%s` @ %s" % (L.rest, nm, L.fn_anchor))
+    vf.fn_text("Semantic::%s_push_step" % fn,
+               "fn %s_push_step(%s, %s: &mut %s, %s: Arc<Self>) {\n    %s\n}" % (fn, ARC_ITEM, stack, STACK, nm, L.rest),
+               Contract(ensures=[
+                   one,
+                   Clause("none_means_node_unchanged", ("C18",), "*%s == %s ==> *final(%s)@.last() == %s" % (nm, NODE, stack, NODE)),
+                   Clause("some_is_pushed", ("C18",), "*final(%s)@.last() == *%s" % (stack, nm)),
+                   Clause("meaning_pushed", ("C18",), "forall|a: Asg<Pk>| sem(*final(%s)@.last(), a) == sem(*%s, a)" % (stack, nm)),
+               ]), PROPS, file=SEM, lines=L.rest_lines, anchor=L.fn_anchor + "/loop body after the node match")
 
 
 def build(repo):
@@ -494,15 +548,16 @@ def build(repo):
         filter_step(vf, "at_age", "at_age", "Older", "age", "relative", "bip68_lock", "at_sequence")
         filter_step(vf, "at_lock_time", "at_age", "After", "n", "absolute", "bip65_lock", "at_nlocktime")
         # ---- sorted: leaves are pushed unchanged ----------------------------------------------------
-        vf.step(SEM, "impl:Policy<Pk>#3/fn:sorted/match:data.node.as_ref()", "Semantic::sorted_step",
-                "fn sorted_step(%s, sorted: &mut %s) -> Option<Self>" % (ARC_ITEM, STACK),
+        L = LoopBody(vf, 3, "sorted")
+        vf.step(SEM, L.match_anchor, "Semantic::sorted_step",
+                "fn sorted_step(%s, sorted: &mut %s) -> %s" % (ARC_ITEM, STACK, L.ret),
                 props=PROPS, scrutinee=AS_REF,
                 exclude={"Self::Thresh(ref thresh)": "thresh_arm_excluded(thresh, sorted)"},
                 contract=Contract(ensures=[
-                    Clause("leaves_unchanged", ("C18",), "is_leaf(%s) ==> r is None" % NODE),
+                    Clause("leaves_unchanged", ("C18",), "is_leaf(%s) ==> %s" % (NODE, "r is None" if L.option else "*r == %s" % NODE)),
                     Clause("leaf_stack_frame", ("C18", "C11"), "is_leaf(%s) ==> final(sorted)@ == old(sorted)@" % NODE),
                 ]))
-        push_step(vf, "sorted", "sorted", 3)
+        push_step(vf, "sorted", "sorted", L)
         # ---- minimum_n_keys -------------------------------------------------------------------------
         vf.step(SEM, "impl:Policy<Pk>#2/fn:minimum_n_keys/match:data.node", "Semantic::minimum_n_keys_step",
                 "fn minimum_n_keys_step(%s, minimum_n_keys: &mut Vec<Option<usize>>) -> Option<usize>" % REF_ITEM,
